@@ -119,14 +119,19 @@ def run(eng: Engine, ck: Check):
     sq = eng.func(QMODEL, 'SearchQuery.parse')
     ck.visited(sq)
     ok = any(call_name(x) == 'lower' for x in calls_in(sq.node))
-    adds = {unparse(x.func.value).split('.')[-1]: unparse(x.args[0]) for x in calls_on(sq.node, 'add')}
-    ck.ob('R-C07-SPLIT', sq, sq.node, 'query terms are lower-cased; `*` and `-` prefixes are stripped', ok and adds == {'wildcard_terms': 'l_term[1:]', 'exclude_terms': 'l_term[1:]',
-          'include_terms': 'l_term'}, f'{adds}', construct='query terms lowered')
+    # the loop variable over the whitespace-split query (name discovered, not assumed)
+    tloops = [n for n in walk_local(sq.node) if isinstance(n, ast.For) and isinstance(n.target, ast.Name) and
+              any(call_name(x_) == 'split' for x_ in ast.walk(expand_aliases(sq, n.iter)))]
+    TERM = tloops[0].target.id if len(tloops) == 1 else 'term'
+    adds = {unparse(x.func.value).split('.')[-1]: unparse(expand_aliases(sq, x.args[0])) for x in calls_on(sq.node, 'add')}
+    ck.ob('R-C07-SPLIT', sq, sq.node, 'query terms are lower-cased; `*` and `-` prefixes are stripped', ok and adds == {
+        'wildcard_terms': f'{TERM}.lower()[1:]', 'exclude_terms': f'{TERM}.lower()[1:]', 'include_terms': f'{TERM}.lower()'}, f'{adds}', construct='query terms lowered')
     rows = {}
     for x in calls_on(sq.node, 'add'):
         rows[unparse(x.func.value).split('.')[-1]] = [(unparse(e), pol) for e, pol, _ in eng.guards_at(sq, x) if 'startswith' in unparse(e)]
-    ok = rows.get('wildcard_terms') == [("term.startswith('*')", True)] and rows.get('exclude_terms') == [("term.startswith('*')", False), ("term.startswith('-')", True)] and \
-        rows.get('include_terms') == [("term.startswith('*')", False), ("term.startswith('-')", False)]
+    ok = rows.get('wildcard_terms') == [(f"{TERM}.startswith('*')", True)] and \
+        rows.get('exclude_terms') == [(f"{TERM}.startswith('*')", False), (f"{TERM}.startswith('-')", True)] and \
+        rows.get('include_terms') == [(f"{TERM}.startswith('*')", False), (f"{TERM}.startswith('-')", False)]
     ck.ob('R-C07-SPLIT', sq, sq.node, 'a term is wildcard iff it starts with *, exclude iff it starts with -, include otherwise', ok, f'{rows}', construct='term classification')
     ctp = eng.func(SUTILS, 'create_term_pattern')
     ck.visited(ctp)
@@ -240,8 +245,16 @@ def run(eng: Engine, ck: Check):
                 elts = [unparse(e) for e in x.args[0].elts] if isinstance(x.args[0], ast.List) else []
                 other = unparse(cmpn.comparators[0])
                 ok = other in elts
-                base = 'self.absolute_path' if qn.endswith('is_parent_of') else ('path' if qn.endswith('is_child_of') else 'directory.absolute_path')
-                ok = ok and other == base
+                prm = [p_ for p_ in f.params if p_ != 'self'][0]
+                arg_side = [e_ for e_ in elts if e_ != 'self.absolute_path']
+                if qn.endswith('is_parent_of'):
+                    base = 'self.absolute_path'
+                elif qn.endswith('is_child_of'):
+                    # the would-be ancestor is the argument's path (a local derived from the parameter)
+                    base = arg_side[0] if len(arg_side) == 1 and mentions_name(expand_aliases(f, ast.parse(arg_side[0], mode='eval').body), prm) else '?'
+                else:
+                    base = f'{prm}.absolute_path'
+                ok = ok and other == base and len(elts) == 2
             ck.ob('R-C07-CONTAIN', f, x, f'{qn}: commonpath([a, b]) == the would-be ancestor', ok, unparse(cmpn)[:90], construct=f'{qn} compares with ancestor')
 
     # ---- R-C07-INDEX
